@@ -109,8 +109,11 @@ def run(ctx):
     ctx.touch(tv)
     st = sym.summarize(repo, tv.qualname, bindings={tv.params[2]: ("str", "edge")})
     nverts = T.call("len", (T.attr(SELF, "vertices"),))
-    longr = [r for r in st.returns if T.ige(nverts, 3) in r[0]] or st.returns[-1:]
-    val = longr[0][1]
+    # the value for three or more points, however the returns are arranged; of the two arms of the orientation choice the one that is
+    # a bare array of coordinate differences is the tangent before orientation
+    val = rules.assume(st.ret(), {T.ige(nverts, 3)})
+    if val[0] == "phi" and val[2][0] == "arr" and val[3][0] != "arr":
+        val = T.phi(T.b_not(val[1]), val[3], val[2])
     raw = val[3] if val[0] == "phi" else val
     judge(ctx, tv, "tangent vector before orientation", raw, L, key="tangent vector")
     sr = repo.func(f"{BE}.get_straight_edge_versor_from_vid")
@@ -136,15 +139,7 @@ def run(ctx):
     corrected = val[2] if val[0] == "phi" else None
     if corrected is None:
         raise AnalysisError("get_vector_from_vertex: orientation step not found - re-bind the anchor")
-    cands = [e.value for e in st.events if e.kind == "assign"] + [T.num(-1)]
-    K = None
-    for k in cands:
-        try:
-            if T.mul(raw, k) == corrected:
-                K = k
-                break
-        except Exception:
-            pass
+    K = rules.extra_factor(raw, corrected, [e.value for e in st.events if e.kind == "assign"])
     if K is None:
         raise AnalysisError("get_vector_from_vertex: orientation step not understood")
     if is_vector(repo, K):
